@@ -15,6 +15,7 @@ from .. import ashref as R
 from .. import vloop
 from ..line import Line, HostTransport
 from ..runner import Acc
+from .. import logmode
 
 PROPERTY = "C01"
 LEVEL = "fault_enumeration"
@@ -432,7 +433,7 @@ def shards(tier, seed):
 def run_shard(desc) -> Acc:
     import logging
 
-    logging.disable(logging.CRITICAL)
+    logmode.apply(desc)
     acc = Acc()
     from ..contracts import install_ash_contracts
 
